@@ -192,7 +192,7 @@ def bounds(prog: Program, rep: Report):
         draws = _draws(fa)
         triples = []  # (offset var, extent expr ast, axis, at node)
         for n, t in fa.returns():
-            rv = cfg.nodes[n].ast.value
+            rv = fa.ret_ast(n)[0]
             if isinstance(rv, ast.Tuple) and len(rv.elts) == 4 and _n(rv.elts[0]) in draws and _n(rv.elts[1]) in draws:
                 triples.append((_n(rv.elts[0]), rv.elts[2], "H", n))
                 triples.append((_n(rv.elts[1]), rv.elts[3], "W", n))
